@@ -172,7 +172,8 @@ def run_task(task):
                 out["generated_any_prop"] = out.get("generated_any_prop", 0) + 1
                 info = ob["info"] or {}
                 props = info.get("props")
-                if props is not None and prop not in props:
+                if props is not None and prop not in props and \
+                        prop not in getattr(c, "props_for_all_clauses", ()):
                     continue
                 want = seen_smt < 1 and not canary
                 if isinstance(ob["formula"], list):
